@@ -8,6 +8,7 @@ import Q1t.Proofs.CQasmGates3
 import Q1t.Proofs.CQasmWitness
 import Q1t.Proofs.CQasmTrig
 import Q1t.Proofs.CQasmWFWitness
+import Q1t.Proofs.CQasmComplex
 /-!
 # C12 — the c-QASM export preserves the circuit's semantics or fails
 
@@ -263,10 +264,13 @@ theorem neg_conditional_multiline :
 /-! ## Per-gate semantic obligations: parametrised translations, for ALL angles (abstract trigonometric context)
 
 `α` is any commutative ring with `Amp α P`, `LawfulAmp α P` (ℂ with the real cosine and sine is a model).
-Proved: the native `rx ry rz` lines; `U1 ↦ rz` up to `e^{-iλ/2}`; `CU1 ↦ cr` exactly; the `CRY` and `CRX` templates on the
-two blocks of the control qubit; what the `CCRZ` template builds on the doubly-controlled block (`U1`, not `RZ`).
-NOT proved (checked numerically by (B) on every run only): the assembled 4×4 / 8×8 statements for `CRX CRY CU3 CCRX CCRY`,
-`U2`/`U3` (whose text is malformed anyway), `CSdg`/`CTdg` (decimal literals of π/2, π/4). -/
+Proved: the native `rx ry rz` lines; `U1 ↦ rz` up to `e^{-iλ/2}`; `CU1 ↦ cr` exactly; the ASSEMBLED 4×4 / 8×8 identities of
+the `CRY CRX CU3 CCRY CCRX` templates (`cq_param_*_assembled`; block calculus of the OpenQASM sibling); the `CCRZ`
+template as it is: exactly `CC-U1(λ)` (`cq_ccrz_template_is_ccu1`), not `CCRZ(λ)`; `CSdg`/`CTdg`: `cr` with a decimal
+literal `x` denotes `CU1(x)`, which is `C-S†` / `C-T†` exactly when `x ≡ −π/2` / `−π/4` (`cq_csdg_of_angle`,
+`cq_ctdg_of_angle`; the literals are 16-digit decimals, so the text is right to 5·10⁻¹⁶, not exactly).
+NOT proved: `U2`/`U3` (their text is malformed).  The angle laws (`LawfulAmp`, `LawfulHalf`, `LawfulNegHalf`,
+`LawfulQuarter`) hold for ℂ with the real cosine and sine (`Proofs/AmpComplex.lean`, `Proofs/CQasmComplex.lean`). -/
 
 section param
 variable {α P : Type} [CommRing α] [Amp α P]
@@ -296,6 +300,76 @@ theorem cq_param_crx_blocks_partial (h : LawfulAmp α P) (θ : P) :
     LMat.mul (CQ1.mSdag (P := P)) (LMat.mul (CQ1.mRy θ) (CQ1.mS (P := P))) = (Spec.specMatrix (.RX θ) : LMat α) ∧
     LMat.mul (CQ1.mSdag (P := P)) (CQ1.mS (P := P)) = (CQ1.mI : LMat α) :=
   ⟨(crx_conjugation h θ).trans (rx_line θ), crx_block_off h⟩
+
+
+open Q1t.OpenQasm in
+/-- `CRY(θ) ↦ cnot c,t; ry t,−θ/2; cnot c,t; ry t,θ/2` IS the controlled `RY(θ)` (4×4, all angles) -/
+theorem cq_param_cry_assembled (h : LawfulAmp α P) (hh : Proofs.Unitaries.LawfulHalf α P) (hn : LawfulNegHalf α P) (θ : P) :
+    app2 [1] (CQ1.mRy (Amp.phalf α θ)) (app2 [0, 1] CQ1.mCnot
+      (app2 [1] (CQ1.mRy (Amp.pneg α (Amp.phalf α θ))) (app2 [0, 1] CQ1.mCnot I4))) =
+      (Spec.specMatrix (.C (.RY θ)) : LMat α) := cry_assembled h hh hn θ
+
+open Q1t.OpenQasm in
+/-- `CRX(θ) ↦ s t; cnot; ry t,−θ/2; cnot; ry t,θ/2; sdag t` IS the controlled `RX(θ)` -/
+theorem cq_param_crx_assembled (h : LawfulAmp α P) (hh : Proofs.Unitaries.LawfulHalf α P) (hn : LawfulNegHalf α P) (θ : P) :
+    app2 [1] (CQ1.mSdag (P := P)) (app2 [1] (CQ1.mRy (Amp.phalf α θ)) (app2 [0, 1] CQ1.mCnot
+      (app2 [1] (CQ1.mRy (Amp.pneg α (Amp.phalf α θ))) (app2 [0, 1] CQ1.mCnot (app2 [1] (CQ1.mS (P := P)) I4))))) =
+      (Spec.specMatrix (.C (.RX θ)) : LMat α) := crx_assembled h hh hn θ
+
+open Q1t.OpenQasm in
+/-- the eight lines of the `CU3` template are `e^{−i(φ+λ)/4} · (1 ⊕ U3(θ,φ,λ))` (a global phase) -/
+theorem cq_param_cu3_assembled (h : LawfulAmp α P) (hh : Proofs.Unitaries.LawfulHalf α P) (hn : LawfulNegHalf α P)
+    (hq : LawfulQuarter α P) (θ φ l : P) :
+    let a8 := Amp.phalf α (Amp.padd α φ l)
+    app2 [0] (CQ1.mRz a8) (app2 [1] (CQ1.mRz φ) (app2 [1] (CQ1.mRy (Amp.phalf α θ)) (app2 [0, 1] CQ1.mCnot
+      (app2 [1] (CQ1.mRy (Amp.pneg α (Amp.phalf α θ))) (app2 [1] (CQ1.mRz (Amp.pneg α (Amp.phalf α (Amp.padd α φ l))))
+        (app2 [0, 1] CQ1.mCnot (app2 [1] (CQ1.mRz (Amp.phalf α (Amp.padd α l (Amp.pneg α φ)))) I4))))))) =
+      CQ1.scale (Amp.cos (Amp.phalf α a8) - Amp.I P * Amp.sin (Amp.phalf α a8))
+        (Spec.specMatrix (.C (.U3 θ φ l)) : LMat α) := cu3_assembled h hh hn hq θ φ l
+
+open Q1t.OpenQasm in
+/-- the fourteen lines of the `CCRY` template (`ccryLines`) ARE the doubly controlled `RY(θ)` (8×8) -/
+theorem cq_param_ccry_assembled (h : LawfulAmp α P) (hh : Proofs.Unitaries.LawfulHalf α P) (hn : LawfulNegHalf α P) (θ : P) :
+    ccryLines (Amp.phalf α (Amp.phalf α θ)) (Amp.pneg α (Amp.phalf α (Amp.phalf α θ))) I8 =
+      (Spec.specMatrix (.C (.C (.RY θ))) : LMat α) := ccry_assembled h hh hn θ
+
+open Q1t.OpenQasm in
+/-- `CCRX(θ)`: `s t`, the `CCRY` lines, `sdag t` -/
+theorem cq_param_ccrx_assembled (h : LawfulAmp α P) (hh : Proofs.Unitaries.LawfulHalf α P) (hn : LawfulNegHalf α P) (θ : P) :
+    app3 [2] (CQ1.mSdag (P := P))
+      (ccryLines (Amp.phalf α (Amp.phalf α θ)) (Amp.pneg α (Amp.phalf α (Amp.phalf α θ))) (app3 [2] (CQ1.mS (P := P)) I8)) =
+      (Spec.specMatrix (.C (.C (.RX θ))) : LMat α) := ccrx_assembled h hh hn θ
+
+open Q1t.OpenQasm in
+/-- the `CCRZ` template AS IT IS: `cr b,t,λ/2; cnot a,b; cr b,t,−λ/2; cnot a,b; cr a,t,λ/2` is exactly `CC-U1(λ)` -/
+theorem cq_ccrz_template_is_ccu1 (h : LawfulAmp α P) (hh : Proofs.Unitaries.LawfulHalf α P) (l : P) :
+    let e : α := Amp.cos (Amp.phalf α l) + Amp.I P * Amp.sin (Amp.phalf α l)
+    let e' : α := Amp.cos (Amp.pneg α (Amp.phalf α l)) + Amp.I P * Amp.sin (Amp.pneg α (Amp.phalf α l))
+    app3 [0, 2] (CQ1.mCPhase e) (app3 [0, 1] CQ1.mCnot (app3 [1, 2] (CQ1.mCPhase e') (app3 [0, 1] CQ1.mCnot
+      (app3 [1, 2] (CQ1.mCPhase e) I8)))) =
+      (Spec.specMatrix (.C (.C (.U1 l))) : LMat α) := ccrz_template_is_ccu1 h hh l
+
+theorem cq_csdg_of_angle (x : P) (hc : (Amp.cos x : α) = 0) (hs : (Amp.sin x : α) = -1) :
+    (CQ1.mCPhase (Amp.cos x + Amp.I P * Amp.sin x) : LMat α) = Spec.specMatrix (.C (.Sdg : GateTerm P)) :=
+  csdg_of_angle x hc hs
+
+theorem cq_ctdg_of_angle (h : LawfulAmp α P) (x : P) (hc : (Amp.cos x : α) = Amp.hsqrt2 P)
+    (hs : (Amp.sin x : α) = -Amp.hsqrt2 P) :
+    (CQ1.mCPhase (Amp.cos x + Amp.I P * Amp.sin x) : LMat α) = Spec.specMatrix (.C (.Tdg : GateTerm P)) :=
+  ctdg_of_angle h x hc hs
+
+/-- what the `CSdg` / `CTdg` texts are: `cr` with these decimal literals (kernel-checked on the model's text) -/
+theorem cq_csdg_ctdg_text :
+    (match exportText Gen.cqGates noNum ⟨2, 0, [.gate (lib "CSdg") [0, 1], .gate (lib "CTdg") [1, 0]]⟩ with
+     | .ok t => (CQ1.parseProgram t).toOption.map (fun p => p.subs.map (·.body))
+     | _ => none) =
+    some [[.one ⟨[], "cr", [.q 0, .q 1, .num ⟨true, "1.570796326794897".toList, false⟩]⟩,
+           .one ⟨[], "cr", [.q 1, .q 0, .num ⟨true, "0.7853981633974483".toList, false⟩]⟩]] := by decide +kernel
+
+/-- the laws hold for the complex numbers: e.g. the `CU3` and `CCRX` identities for ALL real angles -/
+example (θ φ l : ℝ) := cu3_assembled (α := ℂ) AmpComplex.lawful AmpComplex.lawfulHalf AmpComplex.lawfulNegHalf
+  AmpComplex.lawfulQuarter θ φ l
+example (θ : ℝ) := ccrx_assembled (α := ℂ) AmpComplex.lawful AmpComplex.lawfulHalf AmpComplex.lawfulNegHalf θ
 
 /-- NEGATIVE (all angles): on the block where both controls are 1 the `CCRZ` template `cr(λ/2); cnot; cr(−λ/2); cnot;
 cr(λ/2)` is `U1(λ) = diag(1, e^{iλ})`, while the gate is `RZ(λ) = diag(e^{-iλ/2}, e^{iλ/2})`; all other blocks are the
